@@ -54,6 +54,7 @@ def check(ctx) -> None:
     r19(ctx)
     r110(ctx)
     r111(ctx)
+    r112(ctx)
 
 
 # ----------------------------------------------------------------------
@@ -863,3 +864,97 @@ def r111(ctx) -> None:
             else:
                 R.undecided(f, c, key, f'argument resolves to '
                             f'{sorted(verdicts)}')
+
+
+RESP = 'pymap/parsing/response/__init__.py'
+SPEC = 'pymap/parsing/response/specials.py'
+
+
+def r112(ctx) -> None:
+    """One command's untagged FETCH responses are merged by sequence number.
+    A UID command does not defer expunges, so its response can hold an
+    EXPUNGE between FETCH lines numbered before it and FETCH lines numbered
+    after it.  The merge index must not survive the EXPUNGE: otherwise the
+    update of the message that is number n afterwards is folded into the
+    line of the message that was number n before, and written before the
+    EXPUNGE."""
+    R = ctx.rule('R1.12', 'FETCH responses are never merged across an '
+                 'EXPUNGE', 1)
+    cr = ctx.proj.cls(RESP, 'CommandResponse')
+    f = cr.own_method('add_untagged')
+    if f is None:
+        raise AnchorError('CommandResponse.add_untagged vanished')
+    cfg = cfg_of(f)
+    # the merge index: the mapping subscripted to find where to merge
+    merges = [c for c in calls_in(f.node, 'merge')]
+    if not merges:
+        R.ok(f, f.node, 'add_untagged does not merge responses',
+             'nothing to separate')
+        return
+    # the merge index: the self.<mapping> that is read by key; the response
+    # list itself is the one that .append() is called on
+    appended = {c.func.value.attr for c in calls_in(f.node, 'append')
+                if isinstance(c.func.value, ast.Attribute)}
+    idx_fields = {x.value.attr for x in walk_local(f.node)
+                  if isinstance(x, ast.Subscript)
+                  and isinstance(x.ctx, ast.Load)
+                  and isinstance(x.value, ast.Attribute)
+                  and is_name(x.value.value, 'self')} - appended
+    key = 'add_untagged: the merge index is dropped when an EXPUNGE is added'
+    if len(idx_fields) != 1:
+        R.undecided(f, f.node, key, f'merge index field not unique: '
+                    f'{sorted(idx_fields)}')
+        return
+    fld = idx_fields.pop()
+    exp = ctx.proj.cls(SPEC, 'ExpungeResponse')
+    drops = []
+    for n in cfg.stmt_nodes():
+        for c in n.calls():
+            if call_name(c) == 'clear' and is_attr(c.func.value, fld):
+                drops.append(n)
+        for t in targets_of(n.stmt) if n.kind == 'stmt' else []:
+            if is_attr(t, fld, 'self'):
+                drops.append(n)
+    loop_var = None
+    for l in walk_local(f.node):
+        if isinstance(l, ast.For) and isinstance(l.target, ast.Name):
+            loop_var = l.target.id
+    ok = False
+    why = f'no statement of add_untagged drops `self.{fld}`'
+    for d in drops:
+        tests = [t for t in cfg.nodes if t.kind == 'test'
+                 and isinstance(t.stmt, (ast.If, ast.While))
+                 and (cfg.controlled_by(d, t, 't')
+                      or cfg.controlled_by(d, t, 'f'))]
+        conds = []
+        for t in tests:
+            pol = cfg.controlled_by(d, t, 't')
+            for a, p_ in guard_atoms(t.stmt.test if pol else ast.UnaryOp(
+                    ast.Not(), t.stmt.test)):
+                conds.append((a, p_))
+        holds = True
+        for a, p_ in conds:
+            a_ = a.replace(' ', '')
+            if loop_var and a_.startswith(loop_var + '.'):
+                attr = a_[len(loop_var) + 1:]
+                pa = exp.find_attr(attr)
+                val = const_value(pa[1]) if pa else (False, None)
+                if not (val[0] and bool(val[1]) == p_):
+                    holds = False
+                    why = (f'`{a}` is not a constant {p_} on '
+                           f'ExpungeResponse')
+            elif a_ == f'isinstance({loop_var},ExpungeResponse)' and p_:
+                continue
+            else:
+                holds = False
+                why = f'drop is under `{a}`, not known for ExpungeResponse'
+        if holds:
+            ok = True
+    R.check(ok, f, f.node, key,
+            f'{why}: a UID FETCH/STORE whose response contains `* 2 '
+            f'EXPUNGE` (another session expunged) folds the flag update of '
+            f'the message that is number 3 AFTER the expunge into the line '
+            f'of the message that was number 3 BEFORE it — `* 3 FETCH (UID '
+            f'104 FLAGS ..)`, `* 4 FETCH (UID 104)`, `* 2 EXPUNGE`: the '
+            f'client holds one UID for two numbers and has lost another',
+            f'self.{fld} dropped for ExpungeResponse')
